@@ -1013,4 +1013,60 @@ theorem observe_agree (P : Nat → Prop) {h h' : Heap} (agree : ∀ a, P a → h
         exact ⟨p, hp, by rw [e]; rfl⟩
       rw [ih p.2 this]
 
+/-! ## helpers for `setattr` -/
+
+theorem c19_kids_setItem (t : String) (name : String) (v : Item) :
+    ∀ (its : List (String × Item)) (k : Nat), k ∈ (Cell.mk t (setItem name v its)).kids →
+      k ∈ (Cell.mk t its).kids ∨ v = .ref k
+  | [], k, hk => by
+    simp only [setItem, Cell.kids, List.filterMap_cons, List.filterMap_nil] at hk
+    cases v with
+    | atom x => simp [Item.addr?] at hk
+    | ref a =>
+      simp only [Item.addr?, List.mem_singleton] at hk
+      exact Or.inr (by rw [hk])
+  | (key, x) :: rest, k, hk => by
+    simp only [setItem] at hk
+    by_cases e : key = name
+    · rw [if_pos e] at hk
+      simp only [Cell.kids, List.filterMap_cons] at hk ⊢
+      cases v with
+      | atom a =>
+        simp only [Item.addr?] at hk
+        cases x with
+        | atom b => simp only [Item.addr?]; exact Or.inl hk
+        | ref b => simp only [Item.addr?]; exact Or.inl (List.mem_cons_of_mem _ hk)
+      | ref a =>
+        simp only [Item.addr?, List.mem_cons] at hk
+        cases hk with
+        | inl h1 => exact Or.inr (by rw [h1])
+        | inr h2 =>
+          cases x with
+          | atom b => simp only [Item.addr?]; exact Or.inl h2
+          | ref b => simp only [Item.addr?]; exact Or.inl (List.mem_cons_of_mem _ h2)
+    · rw [if_neg e] at hk
+      simp only [Cell.kids, List.filterMap_cons] at hk ⊢
+      cases x with
+      | atom b =>
+        simp only [Item.addr?] at hk ⊢
+        exact c19_kids_setItem t name v rest k hk
+      | ref b =>
+        simp only [Item.addr?, List.mem_cons] at hk ⊢
+        cases hk with
+        | inl h1 => exact Or.inl (Or.inl h1)
+        | inr h2 =>
+          cases c19_kids_setItem t name v rest k h2 with
+          | inl h3 => exact Or.inl (Or.inr h3)
+          | inr h3 => exact Or.inr h3
+
+/-- reachability is the same in a heap that agrees on everything reachable -/
+theorem c19_reach_transport {h h2 : Heap} {r : Nat} (same : ∀ b, Reach h r b → h2.cells b = h.cells b) :
+    ∀ {a : Nat}, Reach h2 r a → Reach h r a := by
+  intro a ra
+  induction ra with
+  | refl => exact Reach.refl _
+  | step _ hk ih =>
+    rw [same _ ih] at hk
+    exact Reach.step ih hk
+
 end Typedpy.Alias
